@@ -278,6 +278,7 @@ func c19(run *ev.Run) int {
 	c19Real(run, values)
 	c19Returns(run)
 	c19Forwarding(run, values)
+	c19SharedOption(run)
 	c19Concurrent(run)
 	return run.Finish("panics.recovered", "sentinel.reraised", "non_panicking.compared", "real.calls", "returns.compared", "concurrent.panics", "forwarding.panics")
 }
@@ -709,6 +710,66 @@ func c19Forwarding(run *ev.Run, values []c19Value) {
 					continue
 				}
 				c19Judge(run, key, rec.take(), v, cl, nil, map[string]any{"protocol": protocol, "upstream_protocol": upProto, "value": v.name, "handler": "forwards its request to another client, then panics"})
+			}
+		}
+	}
+}
+
+// c19SharedOption: handlers of different services share an option value
+// (common := WithInterceptors(...)) that follows each service's own
+// WithRecover in its option list. The handlers are built one after another; a
+// panic in the second (third) handler must reach that handler's recovery
+// function - exactly once - and nobody else's.
+func c19SharedOption(run *ev.Run) {
+	for _, protocol := range svc.Protocols {
+		for _, kind := range []svc.Kind{svc.Unary, svc.ServerStream, svc.Bidi} {
+			for _, firstHasRecover := range []bool{true, false} {
+				key := fmt.Sprintf("c19/shared-option/%s/%s/first-list-has-recover=%v", protocol, kind, firstHasRecover)
+				if !run.Want(key) {
+					continue
+				}
+				common := connect.WithInterceptors(noopIcept{})
+				recs := []*c19Recorder{{}, {}, {}}
+				var sets []*svc.ClientSet
+				var regs []*svc.Registry
+				for i, rec := range recs {
+					reg := svc.NewRegistry()
+					var hopts []connect.HandlerOption
+					if i == 0 && !firstHasRecover {
+						hopts = []connect.HandlerOption{connect.WithInterceptors(noopIcept{}), common}
+					} else {
+						hopts = []connect.HandlerOption{connect.WithRecover(rec.handle), common}
+					}
+					regs = append(regs, reg)
+					sets = append(sets, svc.NewClientSet(&wire.Loopback{Handler: svc.Mux(svc.Handlers(reg, hopts...))}, "http://verif.local", svc.ProtoOpts(protocol, "proto")...))
+				}
+				for i := range recs {
+					if i == 0 && !firstHasRecover {
+						continue
+					}
+					v := c19Value{"string", fmt.Sprintf("boom-%d", i)}
+					prog, sent := c19Program(kind, "mid", &v)
+					call := regs[i].New("c19so", prog)
+					var cl *svc.CLog
+					ok, dump := watchdog(30*time.Second, func() { cl = sets[i].Do(context.Background(), kind, call.ID, nil, []*gen.Msg{{Id: 1}}) })
+					regs[i].Drop(call)
+					run.Eval(fmt.Sprintf("shared-option|%s|%s|%v|handler=%d", protocol, kind, firstHasRecover, i))
+					run.Count("shared_option.panics", 1)
+					if !ok {
+						run.Violation(key+"/hang", "call did not return", trunc(dump, 20000))
+						continue
+					}
+					for j, other := range recs {
+						if j == i {
+							continue
+						}
+						if n := len(other.take()); n != 0 {
+							run.Violation(fmt.Sprintf("%s/handler=%d/foreign-recover", key, i), fmt.Sprintf("a panic in handler %d was handed to the recovery function of handler %d (%d calls)", i+1, j+1, n),
+								map[string]any{"protocol": protocol, "kind": kind.String(), "client_err": errStr(cl.Err)})
+						}
+					}
+					c19Judge(run, fmt.Sprintf("%s/handler=%d", key, i), recs[i].take(), v, cl, sent, map[string]any{"protocol": protocol, "kind": kind.String(), "handler_index": i, "option_lists": "WithRecover(own), shared WithInterceptors value"})
+				}
 			}
 		}
 	}
